@@ -3,7 +3,6 @@ package udp
 import (
 	"encoding/binary"
 	"errors"
-	"fmt"
 	"io"
 	"time"
 
@@ -12,15 +11,17 @@ import (
 
 // WriteError writes the failure reason as a null-terminated string.
 func WriteError(w io.Writer, txID []byte, err error) {
-	// If the client wasn't at fault, acknowledge it.
+	// If the client wasn't at fault, acknowledge it without disclosing any
+	// internal detail.
+	message := "internal error occurred"
 	var clientErr bittorrent.ClientError
-	if !errors.As(err, &clientErr) {
-		err = fmt.Errorf("internal error occurred: %w", err)
+	if errors.As(err, &clientErr) {
+		message = clientErr.Error()
 	}
 
 	buf := newBuffer()
 	writeHeader(buf, txID, errorActionID)
-	buf.WriteString(err.Error())
+	buf.WriteString(message)
 	buf.WriteRune('\000')
 	_, _ = w.Write(buf.Bytes())
 	buf.free()
